@@ -190,7 +190,11 @@ where
             .collect();
     }
 
-    splits.into_iter().map(|split| split.position).collect()
+    // Splits move independently and may cross each other; callers look
+    // positions up with a binary search, which needs them in order.
+    let mut positions: Vec<P> = splits.into_iter().map(|split| split.position).collect();
+    positions.sort_unstable_by(crate::partial_cmp);
+    positions
 }
 
 fn partition_indexed<const D: usize>(
